@@ -163,12 +163,16 @@ func runC18(c *Ctx) {
 	}
 	// inputs spending many outputs of ONE previous transaction: the tie on the hash is broken by the index as a NUMBER
 	// (not as decimal text, not by its little-endian bytes)
-	idxAlpha := []uint32{2, 9, 10, 11, 99, 100, 255, 256, 257, 1000, 65535, 65536, 1 << 24, 1<<24 + 1}
-	for set := 0; set < c.Pick(6, 40); set++ {
+	idxAlpha := []uint32{0, 2, 9, 10, 11, 99, 100, 255, 256, 257, 1000, 65535, 65536, 1 << 24, 1<<24 + 1, 1<<31 - 1, 1 << 31, 1<<31 + 1, math.MaxUint32 - 1, math.MaxUint32}
+	for set := 0; set < c.Pick(10, 60); set++ {
 		n := 3 + set%2
 		var inEl []interface{}
 		h := mkHash(5 + 6*set)
-		for _, j := range r.Perm(len(idxAlpha))[:n] {
+		pick := r.Perm(len(idxAlpha))[:n]
+		if set%3 == 0 { // indexes more than 2^31 apart
+			pick[0], pick[1] = 0, len(idxAlpha)-1-set%4
+		}
+		for _, j := range pick {
 			inEl = append(inEl, map[string]interface{}{"hash": ints(h), "idx": w32(idxAlpha[j]), "script": ints([]byte{byte(j)}), "seq": w32(uint32(j))})
 		}
 		oe := []interface{}{map[string]interface{}{"value": ints(mkVal(1)), "script": ints([]byte{1})}}
